@@ -483,6 +483,55 @@ def check_tower(case):
 
 
 @st.composite
+def type_cases(draw, tier):
+    """ Types on their own, with winding numbers up to +-3; one case in two
+    has the same winding number on every wire (an iterated adjoint of a plain
+    type). """
+    cls = draw(st.sampled_from(["monoidal", "rigid", "rigid", "rigid"]))
+    names = draw(st.lists(st.sampled_from(["a", "b", "c"]), max_size=4))
+    if cls == "rigid":
+        if draw(st.booleans()):
+            z = draw(st.integers(-3, 3))
+            zs = [z] * len(names)
+        else:
+            zs = [draw(st.integers(-3, 3)) for _ in names]
+    else:
+        zs = [0] * len(names)
+    t = [[n, z] for n, z in zip(names, zs)]
+    i = draw(st.integers(0, max(len(t) - 1, 0)))
+    return {"cls": cls, "t": t, "i": i}
+
+
+def check_types(case):
+    cls, t = case["cls"], case["t"]
+    x, y = specs.ty(cls, t), specs.ty(cls, [list(w) for w in t])
+    roundtrip(x, cls, "type")
+    require(lib_eq(x, y) and hash(x) == hash(y) and repr(x) == repr(y),
+            "C03:type-eq", lambda: "{!r} / {!r}".format(x, y))
+    back = eval(repr(x), namespace(cls))  # noqa: S307
+    require(specs.tkey(back) == specs.skey_ty(t), "C03:repr-roundtrip-keys",
+            lambda: "{!r} evaluates to {!r}".format(x, back))
+    if cls == "rigid":
+        for adj in (x.r, x.l, x.r.r, x.l.l):
+            roundtrip(adj, cls, "adjoint type")
+            again = eval(repr(adj), namespace(cls))  # noqa: S307
+            require(specs.tkey(again) == specs.tkey(adj),
+                    "C03:repr-roundtrip-keys",
+                    lambda: "{!r} evaluates to {!r}".format(adj, again))
+    if t:   # one leaf changed: a different type
+        i = case["i"]
+        other = [list(w) for w in t]
+        other[i][0] = other[i][0] + "'"
+        require(not lib_eq(x, specs.ty(cls, other)), "C03:type-eq",
+                lambda: "{!r} == {!r}".format(x, specs.ty(cls, other)))
+        if len(t) > 1 and t != t[::-1]:
+            require(not lib_eq(x, specs.ty(cls, t[::-1])), "C03:type-eq",
+                    lambda: "{!r} equals its reverse".format(x))
+    uniform = len({z for _, z in t}) == 1 and len(t) >= 2 and t[0][1] != 0
+    return dict(nt=uniform, labels=[cls, "len%d" % len(t)], show=repr(x))
+
+
+@st.composite
 def sum_cases(draw, tier):
     """ Two formal sums over generated types, the second a one-step mutation
     of the first (or the same): a term dropped, added or moved, the domain or
@@ -567,6 +616,11 @@ core.register("C03", [
     Facet("functor_keys", functor_cases, check_functor_keys, n_quick=600,
           shards_quick=2, rule="functor keyed by constructor-built boxes "
           "applied to slice-built boxes"),
+    Facet("types", type_cases, check_types, n_quick=1200, shards_quick=2,
+          rule="types with winding numbers up to +-3, their adjoints and "
+          "double adjoints: repr evaluates back to the same objects in the "
+          "same order; non-trivial = >= 2 wires sharing one non-zero winding "
+          "number"),
     Facet("sums", sum_cases, check_sums, n_quick=1200, shards_quick=4,
           rule="pairs of formal sums with 0-3 terms (a term dropped, added or "
           "moved; the types of an empty sum replaced); non-trivial = an "
